@@ -150,6 +150,35 @@ func collectGetSites(p *core.Prog, f *core.Func, body ast.Node) []getSite {
 					}
 				case *ast.CallExpr:
 					nm := core.CalleeName(info, x)
+					// the element is handed to a helper of the package that stores it: x.appendShreddingFromAny(v)
+					if fo := core.Callee(info, x); fo != nil && gs.Var != nil {
+						if h := p.ByObj[fo.Origin()]; h != nil && h.Body != nil && h.Pkg == f.Pkg && h != f {
+							passes := false
+							for _, a := range x.Args {
+								if core.ObjOf(info, a) == gs.Var {
+									passes = true
+								}
+							}
+							if passes {
+								hi := h.Pkg.TypesInfo
+								ast.Inspect(h.Body, func(k2 ast.Node) bool {
+									if has, ok := k2.(*ast.AssignStmt); ok {
+										for _, l := range has.Lhs {
+											if ls, ok := core.Unparen(l).(*ast.SelectorExpr); ok {
+												if _, isStruct := derefStruct(hi.TypeOf(ls.X)); isStruct && core.ObjOf(hi, ls.X) == types.Object(h.RecvObj()) {
+													gs.Fields = append(gs.Fields, ls.Sel.Name)
+												}
+											}
+										}
+									}
+									if ta, ok := k2.(*ast.TypeAssertExpr); ok && ta.Type != nil && gs.Decoder == "" && core.ExprStr(ta.Type) == "[]interface{}" {
+										gs.Decoder = "tuple"
+									}
+									return true
+								})
+							}
+						}
+					}
 					resT := ""
 					if tv := info.TypeOf(x); tv != nil {
 						if tup, isTup := tv.(*types.Tuple); isTup && tup.Len() > 0 {
@@ -220,6 +249,50 @@ func collectGetSites(p *core.Prog, f *core.Func, body ast.Node) []getSite {
 					out = append(out, gs)
 					walk(is.Body)
 					continue
+				}
+			}
+			// form D: v, err := helper(arr, ...) - the helper reads arr[i] on the caller's behalf; what the caller does with v
+			// afterwards (up to the next Get) is the handling of that element
+			if as, isAs := st.(*ast.AssignStmt); isAs && len(as.Rhs) == 1 {
+				if hc, isCall := core.Unparen(as.Rhs[0]).(*ast.CallExpr); isCall {
+					if fo := core.Callee(info, hc); fo != nil {
+						if h := p.ByObj[fo.Origin()]; h != nil && h.Body != nil && h.Pkg == f.Pkg && h != f {
+							handled := false
+							for ai, a := range hc.Args {
+								ao := core.ObjOf(info, a)
+								if ao == nil || core.NamedTypeName(ao.Type()) != "ipld/ipldbindcode._array" || h.ParamObj(ai) == nil {
+									continue
+								}
+								for _, hs := range collectGetSites(p, h, h.Body) {
+									if hs.ArrObj != types.Object(h.ParamObj(ai)) {
+										continue
+									}
+									gs := hs
+									gs.ArrObj, gs.Arr = ao, core.ExprStr(a)
+									gs.Top = declaredWithoutValue(f, ao)
+									gs.Var = core.ObjOf(info, as.Lhs[0])
+									var handling []ast.Node
+									for j := i + 1; j < len(list); j++ {
+										if _, _, _, g2 := getCall(list[j]); g2 {
+											break
+										}
+										if is2, isIf2 := list[j].(*ast.IfStmt); isIf2 && is2.Init != nil {
+											if _, _, _, g3 := getCall(is2.Init); g3 {
+												break
+											}
+										}
+										handling = append(handling, list[j])
+									}
+									analyse(&gs, handling)
+									out = append(out, gs)
+									handled = true
+								}
+							}
+							if handled {
+								continue
+							}
+						}
+					}
 				}
 			}
 			// form C: v, ok := arr.Get(i); if !ok { return err }; <the statements that handle v, up to the next Get>
@@ -385,6 +458,15 @@ func C11(r *core.Report) {
 	// nested tuple types decoded inline in Block.UnmarshalCBOR
 	if bf := p.Fn("ipld/ipldbindcode.(*Block).UnmarshalCBOR"); bf != nil {
 		all := collectGetSites(p, bf, bf.Body)
+		// ... or in helper functions / methods of the package that Block.UnmarshalCBOR reaches (decodeShreddingFromAny,
+		// (*SlotMeta).fromCBORArray): there the nested tuple may well be the helper's own top-level array
+		var helperSites []getSite
+		for _, hf := range pkgScope(p, bf, 3) {
+			if hf == bf || hf.Lit != nil || hf.Body == nil {
+				continue
+			}
+			helperSites = append(helperSites, collectGetSites(p, hf, hf.Body)...)
+		}
 		for _, nested := range []string{"SlotMeta", "Shredding"} {
 			var sub []getSite
 			for _, s := range all {
@@ -392,6 +474,16 @@ func C11(r *core.Report) {
 					if isFieldOf(pkg.Types, nested, fld) && !s.Top {
 						sub = append(sub, s)
 						break
+					}
+				}
+			}
+			if len(sub) == 0 {
+				for _, s := range helperSites {
+					for _, fld := range s.Fields {
+						if isFieldOf(pkg.Types, nested, fld) {
+							sub = append(sub, s)
+							break
+						}
 					}
 				}
 			}
